@@ -18,10 +18,11 @@ PR1 == <<GP(1, <<97, 98>>)>>
 PR2 == <<GP(2, <<120>>), GenP, GP(7, <<104, 101, 108, 108, 111>>)>>
 
 \* ---- repetitions (quanta; whole database units so that sums never create ties) -----
-Reps == {NoRep, Rect(2, 2, <<400, 800>>), Rect(3, 1, <<-400, 0>>), Rect(1, 1, <<40, 40>>),
+Reps == {NoRep, Rect(2, 2, <<400, 800>>), Rect(3, 2, <<400, 800>>), Rect(3, 1, <<-400, 0>>), Rect(1, 1, <<40, 40>>),
          Regular(2, 3, <<400, 400>>, <<-400, 800>>), Explicit(<< <<400, 0>>, <<-400, 800>> >>),
          Explicit(<<>>), ExplicitX(<<400, -800>>), ExplicitY(<<800, 800>>)}
-QuickReps == {NoRep, Rect(2, 2, <<400, 800>>), Regular(2, 3, <<400, 400>>, <<-400, 800>>),
+\* (a non-square array: rotated references exchange columns and rows)
+QuickReps == {NoRep, Rect(3, 2, <<400, 800>>), Regular(2, 3, <<400, 400>>, <<-400, 800>>),
               Explicit(<< <<400, 0>>, <<-400, 800>> >>), ExplicitX(<<400, -800>>)}
 RepSet == IF Depth = "thorough" THEN Reps ELSE QuickReps
 
